@@ -254,6 +254,13 @@ pub trait Space<VM: VMBinding>: 'static + SFT + Sync + Downcast {
         pages_reserved: usize,
         attempted_allocation_and_failed: bool,
     ) {
+        #[cfg(mmtk_verif)]
+        crate::util::verif::rt::event(
+            crate::util::verif::rt::ev::ACQUIRE_FAIL,
+            attempted_allocation_and_failed as usize,
+            pages_reserved,
+            0,
+        );
         assert!(
             VM::VMActivePlan::is_mutator(tls),
             "A non-mutator thread failed to get pages from page resource.  \
